@@ -184,6 +184,8 @@ def _gen_cli(rng, cfg, files, wsdocs, nout):
         op["xmldir"] = rng.choice(xmls)
         op["via"] = "path"
         op["both_inputs"] = False
+        # -v host:mountpoint pairs; with nested mount points the FIRST matching pair wins, so their order is input
+        op["mounts"] = rng.choice([None, None, "shallow_first", "deep_first"])
     return op
 
 
@@ -238,6 +240,7 @@ def gen(rng: random.Random, k: int, tier: str) -> dict:
         if op["cmd"] == "json2xml":
             files[op["outdir"]] = "xmldir"
             cfg.setdefault("xml_prefix", {})[op["outdir"]] = op.get("resultprefix") or "FitConfig"
+            cfg.setdefault("xml_specroot", {})[op["outdir"]] = op.get("specroot") or "config"
     return {"cfg": cfg, "ops": ops}
 
 
@@ -451,9 +454,22 @@ class World:
         elif cmd == "xml2json":
             pfx = (self.cfg.get("xml_prefix") or {}).get(op["xmldir"], "FitConfig")
             a = [cmd, os.path.join(op["xmldir"], f"{pfx}.xml"), "--basedir", ".", "--hide-progress"]
+            for host, mp in self._mounts(op):
+                a += ["-v", f"{host}:{mp}"]
         if out and cmd not in ("digest", "ps_verify", "ps_inspect", "json2xml"):
             a += ["--output-file", out]
         return a, stdin
+
+    def _mounts(self, op):
+        """(host, mount point) pairs of an xml2json op, in the order the user gives them.  The shallow mount point (the
+        whole XML directory) is served from an empty directory, the deeper one (its spec directory) from where the
+        files really are: only the order decides whether the channel files are found."""
+        if not op.get("mounts"):
+            return []
+        sr = (self.cfg.get("xml_specroot") or {}).get(op["xmldir"], "config")
+        os.makedirs(self._p("emptymnt"), exist_ok=True)
+        pairs = [("emptymnt", op["xmldir"]), (os.path.join(op["xmldir"], sr), os.path.join(op["xmldir"], sr))]
+        return pairs if op["mounts"] == "shallow_first" else pairs[::-1]
 
     # -- reference: the library on the same bytes -----------------------------------
     def _load(self, name):
@@ -565,7 +581,10 @@ class World:
             from pathlib import Path
 
             pfx = (self.cfg.get("xml_prefix") or {}).get(op["xmldir"], "FitConfig")
-            return pyhf.readxml.parse(Path(self._p(op["xmldir"])) / f"{pfx}.xml", Path(self.root))
+            mounts = [(Path(self._p(h)).resolve(), Path(m)) for h, m in self._mounts(op)]
+            if mounts and not os.path.isdir(mounts[-1][0]) or mounts and not os.path.isdir(mounts[0][0]):
+                raise FileNotFoundError("mount host directory does not exist")   # click refuses such an option
+            return pyhf.readxml.parse(Path(self._p(op["xmldir"])) / f"{pfx}.xml", Path(self.root), mounts=mounts or None)
         raise core.HarnessError(f"no reference for {cmd}")
 
     # -- comparison --------------------------------------------------------------------
